@@ -176,6 +176,9 @@ async fn main() {
             let dangerous = tn.resolved().starts_with('/') && !tn.resolved().contains(&escape);
             let prefix_digest = dangerous || r.chance(1, 2);
             let preexisting = r.chance(1, 2);
+            // what lies at the destination beforehand: an unrelated file, or (half of the time) a file of exactly the
+            // signed length with other content
+            let old_content: Vec<u8> = if r.chance(1, 2) && !content.is_empty() { let mut x = content.clone(); x[0] ^= 0x55; x } else { old_content.clone() };
             let fault = match r.below(8) { 0 => Fault::BitFlip, 1 => Fault::Oversize, 2 => Fault::TransportErr(r.below(3) as usize), 3 => Fault::Truncated, 4 => Fault::Nothing, _ => Fault::Clean };
             // sandbox: sbx/a/b/out is the output directory, sbx/other is a bystander
             let _ = std::fs::remove_dir_all(sbx.join("a"));
